@@ -293,6 +293,7 @@ inductive SelN
   | scalar (key : String) (fld : Nat)
   | id (key : String)
   | agg (key : String) (fn : AggFn) (fld : Nat)
+  | json (key : String) (fld : Nat) (path : List PathSeg)
   | sub (key : String) (fld : Nat) (child : Nat)
 
 structure Node where
@@ -358,10 +359,99 @@ def buildQuery (c : Case5) : Nat → Nat → Option Query
       | .scalar key fld => some (Sel.scalar key fld)
       | .id key => some (Sel.id key)
       | .agg key fn fld => some (Sel.agg key fn fld)
+      | .json key fld path => some (Sel.json key fld path)
       | .sub key fld child => (buildQuery c fuel child).map fun q => Sel.sub key fld (nd.optional.contains key) q
     some (Query.mk nd.ent sels nd.filters nd.orders nd.first nd.skip nd.after nd.before)
 
 def cps (s : List Char) : String := joinWith "." (s.map fun ch => toString ch.toNat)
+
+/-! a reader of the minified JSON texts of the op files (no escapes, no spaces) -/
+def spanDigits : List Char → List Char × List Char
+  | [] => ([], [])
+  | ch :: t => if ch.isDigit then let r := spanDigits t; (ch :: r.1, r.2) else ([], ch :: t)
+
+def spanStr : List Char → Option (List Char × List Char)
+  | [] => none
+  | '"' :: t => some ([], t)
+  | ch :: t => (spanStr t).map fun r => (ch :: r.1, r.2)
+
+mutual
+  def pJson : Nat → List Char → Option (J × List Char)
+    | 0, _ => none
+    | fuel + 1, s =>
+      match s with
+      | 'n' :: 'u' :: 'l' :: 'l' :: t => some (.null, t)
+      | 't' :: 'r' :: 'u' :: 'e' :: t => some (.bool true, t)
+      | 'f' :: 'a' :: 'l' :: 's' :: 'e' :: t => some (.bool false, t)
+      | '"' :: t => (spanStr t).map fun r => (.str r.1, r.2)
+      | '[' :: ']' :: t => some (.arr [], t)
+      | '[' :: t => (pItems fuel t).map fun r => (.arr r.1, r.2)
+      | '{' :: '}' :: t => some (.obj [], t)
+      | '{' :: t => (pFields fuel t).map fun r => (.obj r.1, r.2)
+      | '-' :: t =>
+        let r := spanDigits t
+        (String.ofList r.1).toNat?.map fun n => (.int (-(n : Int)), r.2)
+      | t =>
+        let r := spanDigits t
+        (String.ofList r.1).toNat?.map fun n => (.int n, r.2)
+  def pItems : Nat → List Char → Option (List J × List Char)
+    | 0, _ => none
+    | fuel + 1, s =>
+      match pJson fuel s with
+      | some (v, ',' :: t) => (pItems fuel t).map fun r => (v :: r.1, r.2)
+      | some (v, ']' :: t) => some ([v], t)
+      | _ => none
+  def pFields : Nat → List Char → Option (List (String × J) × List Char)
+    | 0, _ => none
+    | fuel + 1, s =>
+      match s with
+      | '"' :: t =>
+        match spanStr t with
+        | some (k, ':' :: t2) =>
+          (match pJson fuel t2 with
+           | some (v, ',' :: t3) => (pFields fuel t3).map fun r => ((String.ofList k, v) :: r.1, r.2)
+           | some (v, '}' :: t3) => some ([(String.ofList k, v)], t3)
+           | _ => none)
+        | _ => none
+      | _ => none
+end
+
+def parseJson (s : List Char) : Option J :=
+  match pJson 64 s with
+  | some (j, []) => some j
+  | _ => none
+
+/-- `k/m:1/o`, `@2` (index at the root), `$` (the whole value) -/
+def parsePath (s : String) : Option (List PathSeg) :=
+  if s = "$" then some []
+  else ((s.splitOn "/").mapM fun (seg : String) =>
+    if seg.toList.head? = some '@' then (String.ofList (seg.toList.drop 1)).toNat?.map fun i => [PathSeg.idx i]
+    else match seg.splitOn ":" with
+      | [k] => if k = "" then none else some [PathSeg.key k]
+      | [k, i] => i.toNat?.map fun i => [PathSeg.key k, PathSeg.idx i]
+      | _ => none).map List.flatten
+
+mutual
+  def canonJson : Nat → J → String
+    | 0, _ => "?"
+    | fuel + 1, j =>
+      match j with
+      | .null => "N"
+      | .bool b => if b then "B1" else "B0"
+      | .int i => s!"I{i}"
+      | .str s => "S" ++ cps s
+      | .id n => s!"#{n}"
+      | .obj fs => "J{" ++ joinWith ";" (canonJsonFields fuel fs) ++ "}"
+      | .arr l => "A[" ++ joinWith "," (canonJsonItems fuel l) ++ "]"
+  def canonJsonFields : Nat → List (String × J) → List String
+    | 0, _ => []
+    | _, [] => []
+    | fuel + 1, (k, v) :: rest => (k ++ "=" ++ canonJson fuel v) :: canonJsonFields fuel rest
+  def canonJsonItems : Nat → List J → List String
+    | 0, _ => []
+    | _, [] => []
+    | fuel + 1, v :: rest => canonJson fuel v :: canonJsonItems fuel rest
+end
 
 def canonScalar : J → String
   | .null => "N"
@@ -395,9 +485,10 @@ mutual
     | fuel + 1, q, row =>
       let parts := q.sels.map fun sel =>
         match sel with
-        | .scalar key _ => key ++ "=" ++ (match fieldOf row key with | some x => canonScalar x | none => "absent")
+        | .scalar key _ => key ++ "=" ++ (match fieldOf row key with | some x => canonJson 64 x | none => "absent")
         | .id key => key ++ "=" ++ (match fieldOf row key with | some x => canonScalar x | none => "absent")
         | .agg key _ _ => key ++ "=" ++ (match fieldOf row key with | some x => canonScalar x | none => "absent")
+        | .json key _ _ => key ++ "=" ++ (match fieldOf row key with | some x => canonJson 64 x | none => "absent")
         | .sub key _ _ sq =>
           key ++ "=" ++ (match fieldOf row key with
             | some (.arr items) => "[" ++ joinWith "," (canonRows c fuel sq items) ++ "]"
@@ -490,7 +581,7 @@ def step (c : Case5) (kind : String) (toks : List String) : Case5 × String :=
         let th := (kv? toks "then").bind parseVal
         let dvBad := ((kv? toks "dv").isSome && dv.isNone) || ((kv? toks "then").isSome && (th.isNone || md ≠ "n" || !(["I", "S", "B"].contains ty)))
         let kind : Option FKind := match ty with
-          | "I" => some .int | "S" => some .str | "B" => some .bool
+          | "I" => some .int | "S" => some .str | "B" => some .bool | "J" => some .json
           | "R" => (nat? toks "to").map FKind.ref
           | "A" => (nat? toks "to").map FKind.arr
           | _ => none
@@ -505,8 +596,9 @@ def step (c : Case5) (kind : String) (toks : List String) : Case5 × String :=
   | "build" => ({ c with built := true }, "ok")
   | "upgrade" => ({ c with upgraded := true }, "ok")
   | "row" =>
-    match nat? toks "id", nat? toks "e", parsePairs ((kv? toks "v").getD ""), parsePairs ((kv? toks "r").getD "") with
-    | some id, some e, some vs, some rs =>
+    match nat? toks "id", nat? toks "e", parsePairs ((kv? toks "v").getD ""), parsePairs ((kv? toks "r").getD ""),
+          (parsePairs ((kv? toks "j").getD "")).bind (fun js => js.mapM fun (j, x) => ((QDriver.decCps x).bind parseJson).map fun v => (j, v)) with
+    | some id, some e, some vs, some rs, some jsons =>
       match c.ents[e]? with
       | none => (c, "bad-op")
       | some fs =>
@@ -527,10 +619,10 @@ def step (c : Case5) (kind : String) (toks : List String) : Case5 × String :=
             match fs[j]? with
             | some f => (match f.kind with | .ref _ => (j, ids.take 1) | _ => (j, ids))
             | none => (j, ids)
-          let row : Row := { id, ent := e, vals := vals ++ filled, refs }
+          let row : Row := { id, ent := e, vals := vals ++ filled, refs, jsons }
           ({ c with rows := c.rows ++ [row] }, "ok")
         | _, _ => (c, "bad-op")
-    | _, _, _, _ => (c, "bad-op")
+    | _, _, _, _, _ => (c, "bad-op")
   | "q" =>
     match nat? toks "n", nat? toks "ent" with
     | some n, some e =>
@@ -550,6 +642,13 @@ def step (c : Case5) (kind : String) (toks : List String) : Case5 × String :=
           | none => (c, "bad-op")
       | none => (c, "bad-op")
     | _, _, _ => (c, "bad-op")
+  | "qj" =>
+    match nat? toks "n", kv? toks "key", nat? toks "f", (kv? toks "path").bind parsePath with
+    | some n, some key, some f, some path =>
+      match getNode c n with
+      | some nd => (setNode c n { nd with sels := nd.sels ++ [.json key f path] }, "ok")
+      | none => (c, "bad-op")
+    | _, _, _, _ => (c, "bad-op")
   | "qg" =>
     match nat? toks "n", kv? toks "key", kv? toks "fn", nat? toks "f" with
     | some n, some key, some fn, some f =>
@@ -572,8 +671,10 @@ def step (c : Case5) (kind : String) (toks : List String) : Case5 × String :=
     | some n, some name, some sel, some f, some op, some v =>
       match getNode c n with
       | some nd =>
+        let jp := (kv? toks "jpath").bind parsePath
+        if (kv? toks "jpath").isSome && jp.isNone then (c, "bad-op") else
         let flt : Discret.Query.Filter := { onAlias := sel = "1", fld := f, op, value := v, isParam := (kv? toks "var") = some "1",
-                                            name, onRef := (kv? toks "ref") = some "1" }
+                                            name, onRef := (kv? toks "ref") = some "1", jpath := jp }
         (setNode c n { nd with filters := nd.filters ++ [flt] }, "ok")
       | none => (c, "bad-op")
     | _, _, _, _, _, _ => (c, "bad-op")
@@ -655,7 +756,7 @@ def stepLine (s : St) (line : String) : St × String :=
       | none => (s, "bad-op")
     | _, _ => (s, "bad-op")
   | kind :: rest =>
-    if ["ent", "fld", "build", "upgrade", "row", "q", "qs", "qe", "qg", "qf", "qo", "ql", "qa", "qn", "run", "pages"].contains kind then
+    if ["ent", "fld", "build", "upgrade", "row", "q", "qs", "qe", "qg", "qj", "qf", "qo", "ql", "qa", "qn", "run", "pages"].contains kind then
       match s.c05 with
       | some c => let (c', o) := Q5.step c kind rest; ({ s with c05 := some c' }, o)
       | none => (s, "bad-op")
